@@ -53,6 +53,11 @@ def layer_E():
         ("sum", ("vbin", "*", v, w)), ("vsum", ("vbin", "*", v, w)), ("psum", ("vbin", "*", v, v)),
         ("sum", ("Mv", L.M22, ("vvar", "u", 2))), ("msum", ("mbin", "*", L.M22, L.M22)),
         ("trace", L.M22), ("frob", L.M22), ("norm", v, 2), ("norm", v, 1),
+        # both operands the SAME object (the builder memoises vector recipes) and equal-but-distinct objects
+        ("dot", vv, vv), ("dot", sinv, sinv), ("dot", ("vbin", "+", v, ("c", 1)), ("vbin", "+", v, ("c", 1))),
+        ("dot", vv, ("fresh", 1, vv)), ("dot", sinv, ("fresh", 1, sinv)), ("dot", v, v), ("dot", v, ("fresh", 1, v)),
+        ("dot", ("vbin", "*", v, w), ("vbin", "*", v, w)), ("dot", ("rvbin", "/", ("c", 1), v), ("rvbin", "/", ("c", 1), v)),
+        ("qform", vv, L.Q3), ("mm", ("vbin", "*", vv, ("c", 1)), L.C3),
     ]
     for k in (0, 1, 2, 3, 0.5, -1, 2.5, -2, 1.5):
         out.append(("sum", ("vpow", v, k)))
